@@ -31,7 +31,7 @@ def unq (s : String) : String := if s == "-" then "" else s
 
 /-- expected facts about conn.go prepareStatement (checked on the AST by the harness) -/
 def astExpect : String :=
-  "closure-adds=1 defer-close-first=true err-assign=4 removes=3 remove-by-key=true waits-done=true waits-ctx=true unprepared-evicts-then-retries=true"
+  "closure-adds=1 defer-close-first=true err-assign=4 removes=3 remove-by-key=true waits-done=true waits-ctx=true unprepared-evicts-then-retries=true spawn-follows-publish=true"
 
 
 /-! ### session tier: observed histories of real Sessions, judged by the observable-level specification `Obs`
